@@ -32,6 +32,7 @@ type Call struct {
 	Dag    [][]string        `json:"dag"`
 	Beh    map[string]string `json:"beh"`
 	TagSet []string          `json:"tagset"`
+	Rep    int               `json:"rep,omitempty"`  // issue the call rep more times with the very same argument slices
 	Twin   bool              `json:"twin,omitempty"` // repeats the previous call through the stop-tag variant of its method (C14)
 }
 
